@@ -182,7 +182,9 @@ struct World {
   void graphOp(int op);
   void obsOp(int op);
   void lifeOp(int op);
-  void step();
+  void stepOp();
+  void step() { stepOp(); checkAll(); }
+  string stateKey() const;
 };
 
 // ------------------------------------------------------------------ operations on the graph itself
@@ -235,7 +237,7 @@ void World::graphOp(int op) {
       break; }
     case 5: {  // link(a,b,id): a fresh id, the id of a live edge (ill-formed), or the id of a deleted edge
       a = pickNode(la); b = pickNode(lb);
-      size_t kind = static_cast<size_t>(c.below(enumMode ? 2 : 3)); Id id = gm.absentEdge() - 1 + static_cast<Id>(c.below(2)); bool dup = false;
+      size_t kind = static_cast<size_t>(c.below(enumMode ? 2 : 3)); Id id = gm.absentEdge() - 1 + (enumMode ? 0 : static_cast<Id>(c.below(2))); bool dup = false;
       if (kind == 1 && !gm.edges.empty()) { bool l; id = pickEdge(l); if (!l) id = gm.edges.begin()->first; dup = true; }
       if (kind == 2) for (Id e : gm.autoEdge) if (!gm.edges.count(e)) { id = e; break; }
       d << "link(" << a << "," << b << ",id " << id << ")"; say(d.str());
@@ -414,7 +416,7 @@ void World::obsOp(int op) {
       NP p = pickN(W, la); if (!la) p = W.nObj.at(m.nId.begin()->first);
       bool has = m.nIdx.count(p->tag) > 0;
       if (op == 22) {
-        Id ix = static_cast<Id>(c.below(5));  // small range: collisions with used indexes are frequent
+        Id ix = static_cast<Id>(c.below(enumMode ? 2 : 5));  // small range: collisions with used indexes are frequent
         d << on << "setNodeIndex(" << nm(p) << "," << ix << ")"; say(d.str());
         if (has || m.nodeIdxUsed(ix)) { run(ILL, [&] { o.setNodeIndex(p, ix); }); break; }
         Obs::NodeIndex r = 0; run(WF, [&] { r = o.setNodeIndex(p, ix); }); CHECK(r == ix, what << " returned " << r); m.nIdx[p->tag] = ix;
@@ -430,7 +432,7 @@ void World::obsOp(int op) {
       EP q = pickE(W, le); if (!le) q = W.eObj.at(m.eId.begin()->first);
       bool has = m.eIdx.count(q->tag) > 0;
       if (op == 24) {
-        Id ix = static_cast<Id>(c.below(5));
+        Id ix = static_cast<Id>(c.below(enumMode ? 2 : 5));
         d << on << "setEdgeIndex(" << em(q) << "," << ix << ")"; say(d.str());
         if (has || m.edgeIdxUsed(ix)) { run(ILL, [&] { o.setEdgeIndex(q, ix); }); break; }
         Obs::EdgeIndex r = 0; run(WF, [&] { r = o.setEdgeIndex(q, ix); }); CHECK(r == ix, what << " returned " << r); m.eIdx[q->tag] = ix;
@@ -474,7 +476,20 @@ void World::lifeOp(int op) {
   }
 }
 
-void World::step() {
+// full model state, object tags replaced by their rank (the harness' names do not matter)
+string World::stateKey() const {
+  ostringstream o; o << gm.str() << "|r" << gm.rootSet << gm.root << "|a" << gm.nextAuto << show(gm.everNode) << show(gm.autoEdge);
+  for (const auto& W : obs) {
+    o << "|N"; size_t dead = 0;
+    for (const auto& kv : W.nObj) { auto it = W.m.nId.find(kv.first); if (it == W.m.nId.end()) { ++dead; continue; } o << it->second; auto ix = W.m.nIdx.find(kv.first); if (ix != W.m.nIdx.end()) o << "#" << ix->second; o << ","; }
+    o << "d" << (dead ? 1 : 0) << "E"; dead = 0;
+    for (const auto& kv : W.eObj) { auto it = W.m.eId.find(kv.first); if (it == W.m.eId.end()) { ++dead; continue; } o << it->second; auto ix = W.m.eIdx.find(kv.first); if (ix != W.m.eIdx.end()) o << "#" << ix->second; o << ","; }
+    o << "d" << (dead ? 1 : 0) << "t" << W.m.nTable << "," << W.m.eTable;
+  }
+  return o.str();
+}
+
+void World::stepOp() {
   int op;
   if (enumMode) op = static_cast<int>(c.below(29));
   else {
@@ -483,7 +498,6 @@ void World::step() {
     if (gm.nodes.size() < 3 && c.below(2) == 0) op = c.flag() ? 12 : 0;  // small graphs grow first
   }
   if (op <= 11) graphOp(op); else if (op <= 25) obsOp(op); else lifeOp(op);
-  checkAll();
 }
 
 const char* NT = "history with a delete/unlink after >=2 links, or a direction change with >=1 edge, or an ill-formed call that raised";
@@ -506,10 +520,19 @@ LAW(H_history, RC, 6000, 300000, 260, NT, 10) {
 
 // ------------------------------------------------------------------ all operation sequences up to length L over <= 4 nodes
 // Start configurations: directed / undirected x {empty graph, n1 -e-> n2 built through the observer, path 0->1->2 built on
-// the graph with node objects on 0 and 1 and no edge object}.  Quick: L = 3; thorough (>= ENUM_T shards): L = 4.
-const int ENUM_Q = 16, ENUM_T = 64;
+// the graph with node objects on 0 and 1 and no edge object}.  The first draw is the length, so the enumerator works in
+// rounds of increasing length (iterative deepening).  De-duplication on the full model state (including the hidden
+// counters and table sizes the findings' predicates use): a sequence is continued only along the first path that reached
+// its current state, so every (state, operation) transition from a state reachable in < L operations is evaluated once;
+// the views are compared with the model after the last operation of every sequence (every prefix is a sequence of an
+// earlier round).  Replays do not prune and check after every operation.
+// The quick / thorough fields are shard counts: L = ENUM_LQ with fewer than ENUM_T shards, else ENUM_LT.
+const int ENUM_Q = 16, ENUM_T = 64, ENUM_LQ = 3, ENUM_LT = 4;
 LAW(E_sequences, ENUM, ENUM_Q, ENUM_T, 0, NT, 5) {
-  int maxLen = c.s.enumerating() ? (c.shardN >= ENUM_T ? 4 : 3) : 6;
+  static std::unordered_map<std::string, uint64_t> seen;  // state -> hash of the first path that reached it (per process = per shard)
+  const bool enumerating = c.s.enumerating();
+  int maxLen = enumerating ? (c.shardN >= ENUM_T ? ENUM_LT : ENUM_LQ) : 6;
+  int len = 1 + static_cast<int>(c.below(static_cast<uint64_t>(maxLen)));
   bool directed = !c.flag(); int shape = static_cast<int>(c.below(3));
   World w(c, true, 4, directed);
   c.desc << (directed ? "directed" : "undirected") << " start " << shape << ": ";
@@ -524,12 +547,19 @@ LAW(E_sequences, ENUM, ENUM_Q, ENUM_T, 0, NT, 5) {
     w.g->link(0, 1); w.adoptNewEdges({{0, 1}}); w.g->link(1, 2); w.adoptNewEdges({{1, 2}});
     NP a = w.newN(W), b = w.newN(W); W.o->associateNode(a, 0); W.o->associateNode(b, 1); W.m.nId[a->tag] = 0; W.m.nId[b->tag] = 1; W.m.nTable = 2;
   }
-  w.nLinks = 0; w.what = "start configuration"; w.checkAll();
-  for (int i = 0; i < maxLen; ++i) {
-    if (i > 0 && c.below(2) == 0) break;  // sequences of every length <= maxLen (a 1-op sequence at least)
-    w.step();
-    if (i == 0) c.shardPoint();
+  w.nLinks = 0; w.what = "start configuration";
+  if (!enumerating || len == 1) w.checkAll();
+  for (int i = 0; i < len; ++i) {
+    w.stepOp();
+    if (i == 0) c.shardPoint();  // the description so far: configuration and first operation (not the length)
+    if (!enumerating) { w.checkAll(); continue; }
+    std::string key = w.stateKey(); uint64_t ph = vf::hashStr(c.desc.str());
+    auto it = seen.find(key);
+    if (i + 1 < len) { if (it == seen.end() || it->second != ph) throw vf::Skip(); }  // not the first path to this state: explored elsewhere
+    else if (it == seen.end()) seen.emplace(key, ph);
   }
+  if (enumerating) w.checkAll();
+  c.desc << " [" << len << " op(s)]";
   c.nt(w.ntDelete || w.ntDirection || w.illRaised > 0);
 }
 
